@@ -13,8 +13,6 @@ import (
 	"github.com/SAP/go-dblib/tds"
 
 	"verif/harness/canon"
-	"verif/harness/srv"
-	"verif/harness/xport"
 )
 
 // C02, consumer "until-poll": the packets of the response arrive one after
@@ -32,15 +30,14 @@ import (
 
 var errC02EndOfResponse = errors.New("c02: end of response reached")
 
-func c02DeliverPoll(pkts [][]byte, prelude bool, finals int) (out c02Out, err error) {
+func c02DeliverPoll(pkts [][]byte, prelude bool, finals int, shape int) (out c02Out, err error) {
 	k, err := newKit(4096, 0)
 	if err != nil {
 		return out, err
 	}
 	defer k.teardown()
 	if prelude {
-		first := append(srv.ReturnStatus(77), srv.Done(srv.TokDone, srv.DoneCount, 0, 1)...)
-		k.tr.Feed(xport.Packet(byte(tds.TDS_BUF_RESPONSE), xport.EOM, 0, first))
+		k.tr.Feed(c02PreludePackets(shape)...)
 		if !awaitIdle(k.tr, 30*time.Second) {
 			out.watchdog = true
 			return out, nil
